@@ -79,7 +79,7 @@ Definition load_and_prepass (F : pfacts) (acc : list (string * string * bool)) (
 Section Spec.
 Variable acc : list (string * string * bool).
 Variable E : env.
-Definition scalar_like (v : raw) : bool := match v with RList _ | RDict _ => false | _ => true end.
+Definition scalar_like (v : raw) : bool := match v with RList _ | RDict _ | RTuple0 => false | _ => true end.
 Definition resolves (v : raw) : option string :=
   match v with RStr s _ _ => if find_cmd (cmds E) s then Some s else None | RCmd n => if find_cmd (cmds E) n then Some n else None | _ => None end.
 Fixpoint kind_ok (p : pkind) (v : raw) {struct p} : bool :=
@@ -94,7 +94,7 @@ Fixpoint kind_ok (p : pkind) (v : raw) {struct p} : bool :=
                                 else match wd E with Some d => negb me || path_exists E (path_join d s) | None => false end
                 | _ => false end
   | PDataType keys => match v with RType t => mem_str t (map snd keys) | RStr s _ _ => if assoc_str keys s then true else false | _ => false end
-  | PList item => match v with RList l => forallb (kind_ok item) l | _ => false end
+  | PList item => match v with RList l => forallb (kind_ok item) l | RTuple0 => true | _ => false end
   | PTuple => match v with RDict _ | RList [] => true | _ => false end
   | PData => match v with RData => true | _ => false end
   | PResult out fz =>
